@@ -3,6 +3,7 @@
 package scorch
 
 import (
+	"os"
 	"path/filepath"
 	"sort"
 	"sync/atomic"
@@ -49,6 +50,15 @@ type VerifEvent struct {
 }
 
 var verifCtl atomic.Value // func(*VerifEvent)
+
+// verifLockedIntro (BLEVE_VERIF_LOCKED_INTRO=1 in the environment of the process): the introducer
+// reports its three events (introduce, persist_intro, merge_finish) at the root swap itself, while
+// it still holds rootLock, instead of just after the unlock.  Every goroutine that reads the root
+// does so under that lock, so in this mode nothing can act on a new root before the event that
+// published it has been reported; the event order is exact against persist_pick, copy_start,
+// copy_end and zap_remove, which are reported under the same lock.  Off by default: a controller
+// that blocks an introducer event then does not block readers of the root.
+var verifLockedIntro = os.Getenv("BLEVE_VERIF_LOCKED_INTRO") == "1"
 
 // VerifSetController installs (or, with nil, removes) the event controller.
 func VerifSetController(f func(*VerifEvent)) {
@@ -132,7 +142,21 @@ func verifCopy(s *Scorch, name string, snap *IndexSnapshot) {
 	verifEmit(&VerifEvent{Kind: name, Path: s.path, Epoch: snap.epoch, Root: verifRoot(snap)})
 }
 
+// verifIntroduceSegment is called right after the root swap's unlock, verifIntroduceSegmentLocked
+// just before it; exactly one of the two reports the event (see verifLockedIntro).
 func verifIntroduceSegment(s *Scorch, next *segmentIntroduction, snap *IndexSnapshot) {
+	if !verifLockedIntro {
+		verifIntroduceSegmentEmit(s, next, snap)
+	}
+}
+
+func verifIntroduceSegmentLocked(s *Scorch, next *segmentIntroduction, snap *IndexSnapshot) {
+	if verifLockedIntro {
+		verifIntroduceSegmentEmit(s, next, snap)
+	}
+}
+
+func verifIntroduceSegmentEmit(s *Scorch, next *segmentIntroduction, snap *IndexSnapshot) {
 	if !verifEnabled() {
 		return
 	}
@@ -172,6 +196,18 @@ func verifPersistedIDs(m map[uint64]segment.Segment) []uint64 {
 }
 
 func verifIntroducePersist(s *Scorch, ids []uint64, snap *IndexSnapshot) {
+	if !verifLockedIntro {
+		verifIntroducePersistEmit(s, ids, snap)
+	}
+}
+
+func verifIntroducePersistLocked(s *Scorch, ids []uint64, snap *IndexSnapshot) {
+	if verifLockedIntro {
+		verifIntroducePersistEmit(s, ids, snap)
+	}
+}
+
+func verifIntroducePersistEmit(s *Scorch, ids []uint64, snap *IndexSnapshot) {
 	if !verifEnabled() {
 		return
 	}
@@ -236,6 +272,18 @@ func verifMergeStart(s *Scorch, epoch uint64, sm *segmentMerge) {
 }
 
 func verifIntroduceMerge(s *Scorch, info *verifMergeInfo, skipped []bool, snap *IndexSnapshot) {
+	if !verifLockedIntro {
+		verifIntroduceMergeEmit(s, info, skipped, snap)
+	}
+}
+
+func verifIntroduceMergeLocked(s *Scorch, info *verifMergeInfo, skipped []bool, snap *IndexSnapshot) {
+	if verifLockedIntro {
+		verifIntroduceMergeEmit(s, info, skipped, snap)
+	}
+}
+
+func verifIntroduceMergeEmit(s *Scorch, info *verifMergeInfo, skipped []bool, snap *IndexSnapshot) {
 	if !verifEnabled() || info == nil {
 		return
 	}
